@@ -172,7 +172,23 @@ fn process_dir(
     matcher: &dyn matchers::Matcher,
     quit: &mut bool,
 ) -> i32 {
-    let mut walkdir = WalkDir::new(dir)
+    // With -H a starting point that is a symbolic link to a directory is followed only because
+    // it is a starting point, and the walker does not defer such a root under contents_first:
+    // it would be reported before its contents (and -delete would remove the link first).
+    // "LINK/" names the directory itself; the starting point is still reported as spelled.
+    let via_slash = config.depth_first
+        && config.follow == Follow::Roots
+        && !dir.ends_with('/')
+        && Path::new(dir)
+            .symlink_metadata()
+            .is_ok_and(|m| m.file_type().is_symlink())
+        && Path::new(dir).is_dir();
+    let walk_root = if via_slash {
+        format!("{dir}/")
+    } else {
+        dir.to_string()
+    };
+    let mut walkdir = WalkDir::new(&walk_root)
         .contents_first(config.depth_first)
         .max_depth(config.max_depth)
         .min_depth(config.min_depth)
@@ -199,7 +215,14 @@ fn process_dir(
     // using current_dir is a workaround to check leaving directory.
     let mut current_dir: Option<PathBuf> = None;
     while let Some(result) = it.next() {
-        match WalkEntry::from_walkdir(result, config.follow) {
+        let entry = WalkEntry::from_walkdir(result, config.follow).map(|entry| {
+            if via_slash && entry.depth() == 0 {
+                WalkEntry::new(dir, 0, config.follow)
+            } else {
+                entry
+            }
+        });
+        match entry {
             Err(err) => {
                 ret = 1;
                 writeln!(&mut stderr(), "Error: {err}").unwrap();
